@@ -260,8 +260,8 @@ class SharedMemoryDictArray(DictArray):
         """Load the persisted data into the shared mapping, which stays a manager proxy."""
         if self.folder is None:  # pragma: no cover
             return
-        if not self.folder.exists():
-            return
+        if not self._path().is_file():  # nothing persisted (yet): a new folder, an interrupted run, or
+            return  # a folder in which an earlier run kept this output in another storage class
         self._dict.update(load(self._path()))
 
     @property
